@@ -1142,7 +1142,7 @@ def m_iter_next(ctx):
     return [(None, none() if x is None else some(x))]
 
 
-@model(r'as Iterator>::(map|enumerate|rev|cloned|copied|peekable|by_ref|filter|zip|chain|take|skip|filter_map|flat_map|flatten)::<|as Iterator>::(enumerate|rev|cloned|copied|peekable|by_ref|flatten)$')
+@model(r'as Iterator>::(map|enumerate|rev|cloned|copied|peekable|by_ref|filter|zip|chain|take|skip|filter_map|flat_map|flatten)::<|as Iterator>::(enumerate|rev|cloned|copied|peekable|by_ref|flatten|take|skip)$')
 def m_iter_adapt(ctx):
     ex, st = ctx.ex, ctx.st
     op = re.search(r'>::(\w+)(::<.*)?$', ctx.callee).group(1)
@@ -1396,7 +1396,7 @@ def remap(ex, st2):
     return shaped(ex, st2, _reeval_arg0(ex, st2))
 
 
-@model(r'^(std::collections::)?(HashMap|BTreeMap|IndexMap|HashSet|BTreeSet|IndexSet)(?:::<.*>)?::(new|with_capacity|get|get_mut|contains_key|contains|insert|remove|len|is_empty|iter|iter_mut|keys|values|values_mut|clear|entry|first_key_value|last_key_value|pop_first|pop_last|into_keys|into_values|get_key_value|swap_remove|shift_remove|retain|extend|drain|get_index|first|last|with_capacity_and_hasher|default|sort_unstable_keys|sort_keys|split_off)$')
+@model(r'^(std::collections::)?(HashMap|BTreeMap|IndexMap|HashSet|BTreeSet|IndexSet)(?:::<.*>)?::(new|with_capacity|get|get_mut|contains_key|contains|insert|remove|len|is_empty|iter|iter_mut|keys|values|values_mut|clear|entry|first_key_value|last_key_value|pop_first|pop_last|into_keys|into_values|get_key_value|swap_remove|shift_remove|retain|extend|drain|get_index|first|last|with_capacity_and_hasher|default|sort_unstable_keys|sort_keys|split_off|first_entry|last_entry)$')
 def m_map(ctx):
     ex, st = ctx.ex, ctx.st
     op = ctx.callee.rsplit('::', 1)[1]
@@ -1456,6 +1456,14 @@ def m_map(ctx):
             mm = s2.tr(m); k, v = mm.attrs['items'].pop(idx)
             return some(v) if not is_set else z3.BoolVal(True)
         return map_lookup_alts(ex, st, m, key, found, none() if not is_set else z3.BoolVal(False))
+    if op in ('first_entry', 'last_entry'):
+        if not kind.startswith('BTree') or m.attrs.get('unsorted'):
+            raise MirError('first_entry on a map without a known key order')
+        if not items:
+            return [(None, none())]
+        idx = 0 if op == 'first_entry' else len(items) - 1
+        e = Obj('OccupiedEntry', kind='entry'); e.discr = 'Occupied'; e.attrs['map'] = m; e.attrs['idx'] = idx; e.attrs['key'] = items[idx][0]
+        return [(None, some(e))]
     if op == 'split_off':
         if not kind.startswith('BTree') or m.attrs.get('unsorted'):
             raise MirError('split_off on a map without a known key order')
